@@ -1555,7 +1555,7 @@ func (s *Store) processLTXStreamFrame(ctx context.Context, frame *LTXStreamFrame
 	// We also hold the local WRITE lock so a local write cannot be in-progress.
 	if haltLock := db.RemoteHaltLock(); haltLock != nil {
 		TraceLog.Printf("[ProcessLTXStreamFrame.Unhalt(%s)]: replica holds HALT lock but received LTX file, unsetting HALT lock", db.Name())
-		if err := db.UnsetRemoteHaltLock(ctx, haltLock.ID); err != nil {
+		if err := db.unsetRemoteHaltLock(ctx, haltLock.ID, true); err != nil {
 			return fmt.Errorf("release remote halt lock: %w", err)
 		}
 	}
